@@ -305,6 +305,8 @@ class C20(Prop):
             yield dict(case, side="none")
         if case["start_kind"] == "slash":
             yield dict(case, start_kind="abs")
+        if case["root"] != "none":
+            yield dict(case, root="none", name="tasks")
         top = 1 if case["start"] == "side" else case["start"]
         if len(kinds) - 1 > top:
             yield dict(case, kinds=kinds[:-1])
